@@ -59,13 +59,13 @@ def definition(s3):
 
 
 def run(ctx):
-    ctx.coverage["rule"] = ("corpus structures (grid-snapped), rigidly moved, jittered, thinned; files with chains out of order for downward/outward. "
+    ctx.coverage["rule"] = ("corpus structures (grid-snapped), rigidly moved, jittered, thinned; files with chains out of order for downward/outward; synthetic placements of two complete bases (all letters incl. thymine and modified residues) with parallel/antiparallel normals at centroid distances and vector angles just inside/outside 6 A and 45 degrees. "
                             "Non-trivial = >= 1 centroid pair within 6 A and no decision inside the 1e-6 band; distinct by (structure, perturbation).")
     corr_expr, corr_exp, corr_case = [], [], []
     nb_expr, nb_exp, nb_case = [], [], []
     undecided = 0
     topo = {}
-    for name, kind, s3 in annot.structures(ctx, big=True):
+    for name, kind, s3 in annot.structures(ctx, kinds=("corpus", "moved", "jitter", "reversed", "thin", "thin-base", "synthetic-stack"), big=True):
         try:
             pairs, bphs, brs, sts, o1, o2, raw = annot.annotate(s3)
         except Exception as e:  # noqa: BLE001
